@@ -8,7 +8,7 @@ import itertools
 
 from rv import common
 
-EXTRAS = ["x", "y", "test"]
+EXTRAS = ["x", "y", "test", "p.q"]
 VERS = ["1.0", "1.5", "2.0", "2.1", "3.0"]
 
 
